@@ -19,4 +19,26 @@ class C15(BridgeBase):
         return sum(1 for e in evs if e["act"] == "Send" and e.get("res") == "ok") >= 2
 
 
-CHECK = C15()
+def period_part(name, env):
+    class P(C15):
+        mc = []
+        quick_cap = 2500
+        thorough_cap = 8000
+        trace_cfg = "SkywayBridgeTrace_" + name
+        gens = [Gen("SkywayBridgeGen", "SkywayBridgeGen_limits_cover_" + name, "bfs", tiers=("quick", "thorough"), timeout=600)]
+        drive_env = {"VERIF_INITBAL": "12", "VERIF_LIMIT_PERIOD": env}
+    P.__name__ = "C15_" + name
+    return P()
+
+
+from pipeline import Multi
+
+
+class C15All(Multi):
+    """DAILY with the full generator set; WEEKLY / MONTHLY / YEARLY windows with the boundary cover (jumps of
+    window-1 and window blocks). The expected window lengths are constants of the trace configurations."""
+    pid = "C15"
+    parts = [C15(), period_part("weekly", "WEEKLY"), period_part("monthly", "MONTHLY"), period_part("yearly", "YEARLY")]
+
+
+CHECK = C15All()
